@@ -116,3 +116,13 @@ impl<'a, B: ?Sized> core::fmt::Debug for SCow<'a, B> {
         Ok(())
     }
 }
+
+/// the selection cache of the actor loop (`HashMap<Consistency, (Instant, Nodes)>`): only `clear()` is used by the SetNodes arm
+pub struct CacheStub {
+    pub entries: usize,
+}
+impl CacheStub {
+    pub fn clear(&mut self) {
+        self.entries = 0;
+    }
+}
